@@ -33,6 +33,7 @@ def run(ctx):
     ctx.guarded("R-C16-fire", registered_then_reported, ctx, prog)
     ctx.guarded("R-C16-handover", handover, ctx, prog)
     ctx.guarded("R-C16-fire", decided_by_admitted, ctx, prog)
+    ctx.guarded("R-C16-fire", end_reports_cannot_be_dropped, ctx, prog)
 
 
 def will_wakes_subscribers(ctx, prog):
@@ -496,3 +497,42 @@ def decided_by_admitted(ctx, prog):
             ctx.violation(rule, body.id, "will decided by a connection that is not admitted yet",
                           "the decider of the previous connection's delayed will is signalled (Fire/Cancel) before RemoteLink::new has registered the new connection: a CONNECT that the router then refuses (connection limit, client id) "
                           "has already cancelled — or fired — the will of a connection that nobody took over", site=body.loc(t.get("sp")))
+
+
+def end_reports_cannot_be_dropped(ctx, prog):
+    """The connection task reports the end of a connection (Event::Disconnect) and the decision on its will
+    (Event::PublishWill) over the bounded router queue every link's data notifications also wait on. A non-blocking
+    try_send whose result is discarded loses the report when that queue is full at that instant: the will is never
+    published and the connection stays registered. The two reports must use the blocking send."""
+    rule = "R-C16-fire"
+    rb = prog.one(r"^server::broker::remote::\{closure#0\}$")
+
+    def event_var(op, d=0):
+        for s in flatten_src(provenance(rb, op)):
+            if s.kind == "agg":
+                if s.adt == "router::Event":
+                    return s.var
+                if d < 3:
+                    for o in s.rv.get("ops", []):
+                        v = event_var(o, d + 1)
+                        if v:
+                            return v
+        return None
+    seen = {}
+    for bb, t in rb.calls():
+        m = re.search(r"Sender::<T>::(send|try_send|send_async|send_timeout|send_deadline)$", callee_path(t))
+        if not m or rb.is_cleanup(bb):
+            continue
+        var = None
+        for a in t["args"][1:]:
+            var = var or event_var(a)
+        if var not in ("Disconnect", "PublishWill"):
+            continue
+        seen.setdefault(var, []).append(m.group(1))
+        if m.group(1) in ("send", "send_async"):
+            ctx.ok(rule, rb.id, "Event::%s is reported with a blocking %s" % (var, m.group(1)), site=rb.loc(t.get("sp")))
+        else:
+            ctx.violation(rule, rb.id, "Event::%s report can be dropped" % var,
+                          "broker::remote reports Event::%s with %s: when the bounded router queue is full at that instant the report is lost — the will is never published / the connection stays registered" % (var, m.group(1)),
+                          site=rb.loc(t.get("sp")))
+    ctx.floor(rule, "end-of-connection reports found in broker::remote (Disconnect, PublishWill)", len(seen), 2)
